@@ -147,10 +147,15 @@ def run(ctx):
                 return [Out("normal", s, const(None))]
             if t.endswith("acquire_and_get"):
                 return [Out("normal", st, AV("unk", sym="probe"))]
+            if it.resolve_callee(node, recv) in it.inline:
+                return None  # a private helper of the connection (an extracted transport / wrap step): interpreted in place
             return [Out("normal", st, UNK)]
 
     cr = CR()
-    outs, it = run_function(m, cf, cr, hc, seeds={("self", "_tunnel_scheme"): AV("unk", sym="tunnel_scheme"), ("self", "proxy_is_tunneling"): AV("unk", sym="tunneling")}, record_decisions=True)
+    from ..rows import helper_closure as _hc5
+    inl5 = frozenset(q_ for q_ in _hc5(m, [cf], stop=("_connect_tls_proxy", "_tunnel", "_new_conn")) - {cf.qual}
+                     if q_.rsplit(".", 1)[-1] not in ("_ssl_wrap_socket_and_match_hostname", "_connect_tls_proxy", "_tunnel", "_new_conn", "_match_hostname", "_assert_fingerprint"))
+    outs, it = run_function(m, cf, cr, hc, inline=inl5, seeds={("self", "_tunnel_scheme"): AV("unk", sym="tunnel_scheme"), ("self", "proxy_is_tunneling"): AV("unk", sym="tunneling")}, record_decisions=True)
     ctx.sites(R5, len(cr.wraps), 2, "paths reaching the origin wrap")
     seen = set()
     for tit, s in cr.wraps:
